@@ -1026,6 +1026,7 @@ def run_canaries(units, sel_props, args, scratch):
 
 
 def replay_only(args):
+    args.replay = os.path.abspath(args.replay)   # the native replay runs in its own scratch directory
     with open(args.replay) as f:
         doc = json.load(f)
     units = load_units()
